@@ -142,8 +142,8 @@ func (s *mcSUT) Reset(cfg core.Ev) {
 }
 
 func settle() {
-	if !sched.Quiesce(5 * time.Second) {
-		panic("process did not become quiescent within 5s")
+	if !sched.Quiesce(20 * time.Second) {
+		panic("process did not become quiescent within 20s")
 	}
 }
 
